@@ -172,7 +172,8 @@ func (e *Exec) binop(in *ssa.BinOp, x, y Value) Value {
 		}
 		return tt.Not(eq)
 	case FuncV:
-		eq := tt.Bool(a.fn == nil && y.(FuncV).fn == nil)
+		b := y.(FuncV)
+		eq := tt.Bool(a.fn == nil && a.native == nil && b.fn == nil && b.native == nil)
 		if op == token.EQL {
 			return eq
 		}
